@@ -238,6 +238,15 @@ impl TryFrom<OpenFile> for Stdio {
         // fail (e.g. under descriptor exhaustion), so the conversion is fallible and the error is
         // surfaced to the caller rather than silently degrading the child's streams.
         match open_file {
+            // N.B. `Stdio::inherit()` would make the child inherit its *same-numbered*
+            // descriptor, which is wrong whenever one of our original standard streams got
+            // duplicated onto another descriptor (e.g., `cmd 2>&1` or `cmd >&2`); hand out a
+            // duplicate of the right stream instead.
+            #[cfg(unix)]
+            OpenFile::Stdin(_) | OpenFile::Stdout(_) | OpenFile::Stderr(_) => {
+                Ok(open_file.try_clone_to_owned()?.into())
+            }
+            #[cfg(not(unix))]
             OpenFile::Stdin(_) | OpenFile::Stdout(_) | OpenFile::Stderr(_) => Ok(Self::inherit()),
             OpenFile::File(f) => Ok(f.try_clone()?.into()),
             OpenFile::PipeReader(r) => Ok(r.try_clone()?.into()),
